@@ -239,6 +239,19 @@ func runC11(r *Report, tier string) {
 	checkBuilderPurity(r, "R01.5")
 	// decoder
 	checkSignMessageDecoderElems(r, "R11.3")
+	// "over that signer's own Sig_structure": verification neither repairs nor
+	// otherwise writes the message it judges
+	r.rule("R04.2", "(shared with C04) the verification gate succeeds only for alg equal or alg absent with external data, and writes nothing.")
+	checkGatesOnly(r)
+	r.rule("R18.1", "(shared with C18) SignMessage.Verify and Signature.Verify write no memory that existed before the call.")
+	for _, tn := range []string{"SignMessage", "Signature"} {
+		fn := P.methodOf(P.mustNamed(tn), "Verify")
+		if fn == nil {
+			undecidedf("anchor not found: %s.Verify", tn)
+		}
+		ws := P.effects.summary(fn).writes
+		r.ob("R18.1", shortFn(fn)+":writes", fn, nil, "write set on pre-existing memory is empty").check(len(ws) == 0, "empty write set", "writes "+writeList(ws, P))
+	}
 }
 
 // checkSignMessageEncoderElems: the COSE_Sign encoder succeeds only with a
